@@ -291,7 +291,8 @@ func (g *genCtx) macro(name string) []Item {
 	}
 	switch name {
 	case "save-resize-restore":
-		goTo(r.intn(g.h), r.intn(g.w))
+		sy, sx := r.intn(g.h), r.intn(g.w)
+		goTo(sy, sx)
 		if r.chance(1, 2) {
 			out = append(out, g.item("margins"))
 		}
@@ -302,6 +303,15 @@ func (g *genCtx) macro(name string) []Item {
 		w, h := 1+r.intn(g.w), 1+r.intn(g.h)
 		if r.chance(1, 4) {
 			w, h = g.sizePick()
+		}
+		if r.chance(1, 2) {
+			// the new border exactly on, just before or just after the saved position
+			if v := sy + r.intn(3) - 1 + 1; v >= 1 && r.chance(2, 3) {
+				h = v
+			}
+			if v := sx + r.intn(3) - 1 + 1; v >= 1 && r.chance(2, 3) {
+				w = v
+			}
 		}
 		g.w, g.h = w, h
 		out = append(out, Item{Kind: "resize", W: w, H: h})
@@ -403,6 +413,113 @@ func (g *genCtx) macro(name string) []Item {
 				add("textwide", pick(r, wideRunes))
 			}
 		}
+	case "resize-wide-rows":
+		// rows of mixed narrow and wide characters up to the right edge (also the bottom rows),
+		// then a resize that moves both borders: wide characters straddle the new right edge on
+		// rows that stay and on rows that go
+		mixed := func() string {
+			var sb strings.Builder
+			x := 0
+			if r.chance(1, 2) {
+				sb.WriteByte(byte('a' + r.intn(26)))
+				x++
+			}
+			for x+2 <= g.w {
+				if r.chance(2, 3) {
+					sb.WriteString(pick(r, wideRunes))
+					x += 2
+				} else {
+					sb.WriteByte(byte('a' + r.intn(26)))
+					x++
+				}
+			}
+			return sb.String()
+		}
+		add("wrap", "\x1b[?7l")
+		for k, n := 0, 1+r.intn(4); k < n; k++ {
+			goTo(pick(r, []int{g.h - 1, g.h - 2, r.intn(g.h), 0}), 0)
+			add("textwide", mixed())
+		}
+		if r.chance(1, 3) {
+			add("altscreen", pick(r, []string{"\x1b[?1049h", "\x1b[?1049l"}))
+		}
+		{
+			w, h := 1+r.intn(g.w), 1+r.intn(g.h)
+			if r.chance(1, 4) {
+				w, h = g.w+r.intn(3), 1+r.intn(g.h)
+			}
+			g.w, g.h = w, h
+			out = append(out, Item{Kind: "resize", W: w, H: h})
+		}
+		if r.chance(1, 2) {
+			w, h := g.w+r.intn(4), g.h+r.intn(3)
+			g.w, g.h = w, h
+			out = append(out, Item{Kind: "resize", W: w, H: h})
+		}
+		for k, n := 0, 1+r.intn(3); k < n; k++ {
+			goTo(r.intn(g.h), pick(r, []int{g.w - 1, g.w - 2, r.intn(g.w)}))
+			out = append(out, g.item(pick(r, []string{"text", "textwide", "erase"})))
+		}
+	case "mark-after-motion":
+		// a combining mark (or variation selector) that arrives as a run of its own after the
+		// cursor was moved next to / into existing text (grapheme mode: it joins the cell left of the cursor)
+		y := r.intn(g.h)
+		goTo(y, 0)
+		if r.chance(1, 2) {
+			out = append(out, g.item("sgr"))
+			add("text", string(g.text(1+r.intn(3), false, false)))
+		}
+		{
+			var sb strings.Builder
+			for x := 0; x+2 < g.w && x < 12; {
+				if r.chance(1, 2) {
+					sb.WriteString(pick(r, wideRunes))
+					x += 2
+				} else {
+					sb.WriteByte(byte('a' + r.intn(26)))
+					x++
+				}
+			}
+			add("textwide", sb.String())
+		}
+		for k, n := 0, 1+r.intn(3); k < n; k++ {
+			if r.chance(1, 2) {
+				add("cursor", fmt.Sprintf("\x1b[%dD", 1+r.intn(4)))
+			} else {
+				goTo(y, r.intn(g.w))
+			}
+			add("textzero", pick(r, []string{"\u0301", "\u0308", "\u20dd", "\ufe0e"}))
+			if r.chance(1, 3) {
+				add("text", string(g.text(1, false, false)))
+			}
+		}
+	case "alt-text-edge":
+		// text crossing the right edge on the alternate buffer while the main cursor sits elsewhere
+		goTo(r.intn(g.h), pick(r, []int{0, 1, r.intn(g.w)}))
+		add("altscreen", "\x1b[?1049h")
+		add("wrap", pick(r, []string{"\x1b[?7h", "\x1b[?7l"}))
+		goTo(r.intn(g.h), pick(r, []int{g.w - 1, g.w - 2, g.w - 3, g.w / 2}))
+		add("textlong", string(g.text(3+r.intn(g.w+2), r.chance(1, 3), false)))
+		if r.chance(1, 2) {
+			add("altscreen", "\x1b[?1049l")
+			add("textlong", string(g.text(3+r.intn(g.w+2), r.chance(1, 3), false)))
+		}
+	case "erase-with-region":
+		// erase operations while a scroll region is set and the cursor is above, inside or below it
+		t := r.intn(g.h)
+		b := t + r.intn(g.h-t)
+		for k, n := 0, 1+r.intn(3); k < n; k++ {
+			goTo(r.intn(g.h), 0)
+			add("textlong", string(g.text(g.w, false, false)))
+		}
+		add("margins", fmt.Sprintf("\x1b[%d;%dr", t+1, b+1))
+		if r.chance(1, 2) {
+			out = append(out, g.item("sgr"))
+		}
+		for k, n := 0, 1+r.intn(3); k < n; k++ {
+			goTo(pick(r, []int{t, b, r.intn(g.h), t / 2, 0, g.h - 1}), r.intn(g.w))
+			add("erase", pick(r, []string{"\x1b[J", "\x1b[1J", "\x1b[1J", "\x1b[2J", "\x1b[K", "\x1b[1K", "\x1b[2K", "\x1b[3X", "\x1b[2P"}))
+		}
 	case "autowrap-corners":
 		add("wrap", "\x1b[?7h")
 		if r.chance(1, 2) {
@@ -427,7 +544,8 @@ func (g *genCtx) macro(name string) []Item {
 	return out
 }
 
-var macroNames = []string{"save-resize-restore", "outside-region", "alt-roundtrip", "wide-edges", "autowrap-corners", "wide-splice"}
+var macroNames = []string{"save-resize-restore", "outside-region", "alt-roundtrip", "wide-edges", "autowrap-corners", "wide-splice",
+	"resize-wide-rows", "mark-after-motion", "alt-text-edge", "erase-with-region"}
 
 func (g *genCtx) sizePick() (int, int) {
 	r := g.r
@@ -501,11 +619,11 @@ var profiles = map[string]*profile{
 		minLen: 4, maxLen: 60, grid: 30, chunks: []int{0, 1, 2, 3}, sizes: func(g *genCtx) (int, int) { return g.sizePick() }},
 	"C02": {name: "C02", gmode: 15, macros: 8, weights: withWeights(map[string]int{"resize": 5, "textwide": 20, "goto": 20, "erase": 14, "sgr": 10, "badutf8": 3}),
 		minLen: 6, maxLen: 50, grid: 25, chunks: []int{0, 1, 3}},
-	"C03": {name: "C03", gmode: 20, macros: 8, macroSet: []string{"wide-edges", "autowrap-corners", "outside-region", "wide-splice"}, weights: map[string]int{"text": 30, "textwide": 20, "textlong": 15, "goto": 14, "wrap": 8, "cursor": 6, "sgr": 5, "crlf": 4, "margins": 2, "badutf8": 3, "c0": 3},
+	"C03": {name: "C03", gmode: 20, macros: 8, macroSet: []string{"wide-edges", "autowrap-corners", "outside-region", "wide-splice", "mark-after-motion", "alt-text-edge"}, weights: map[string]int{"text": 30, "textwide": 20, "textlong": 15, "goto": 14, "wrap": 8, "cursor": 6, "sgr": 5, "crlf": 4, "margins": 2, "badutf8": 3, "c0": 3, "altscreen": 1},
 		minLen: 4, maxLen: 40, grid: 30, chunks: []int{0, 1, 3}},
 	"C04": {name: "C04", gmode: 8, macros: 8, macroSet: []string{"outside-region", "autowrap-corners", "save-resize-restore"}, weights: map[string]int{"cursor": 40, "c0": 15, "index": 12, "goto": 6, "margins": 8, "text": 10, "textwide": 3, "wrap": 3, "lf": 5, "crlf": 3},
 		minLen: 4, maxLen: 40, grid: 30, chunks: []int{0, 1}},
-	"C05": {name: "C05", gmode: 12, macros: 10, macroSet: []string{"wide-edges", "wide-splice"}, weights: map[string]int{"erase": 35, "goto": 20, "text": 15, "textwide": 15, "textlong": 6, "sgr": 8, "wrap": 2, "crlf": 3},
+	"C05": {name: "C05", gmode: 12, macros: 10, macroSet: []string{"wide-edges", "wide-splice", "erase-with-region"}, weights: map[string]int{"erase": 35, "goto": 20, "text": 15, "textwide": 15, "textlong": 6, "sgr": 8, "wrap": 2, "crlf": 3, "margins": 3},
 		minLen: 5, maxLen: 40, grid: 30, chunks: []int{0, 1}},
 	"C06": {name: "C06", gmode: 10, macros: 10, macroSet: []string{"outside-region", "autowrap-corners"}, weights: map[string]int{"scroll": 25, "margins": 14, "index": 14, "lf": 8, "goto": 12, "text": 12, "textwide": 5, "textlong": 6, "wrap": 4, "sgr": 4, "crlf": 4},
 		minLen: 5, maxLen: 40, grid: 30, chunks: []int{0, 1}},
@@ -519,7 +637,7 @@ var profiles = map[string]*profile{
 		minLen: 4, maxLen: 40, grid: 20, chunks: []int{0, 1, 3}},
 	"C17": {name: "C17", macros: 12, macroSet: []string{"alt-roundtrip"}, weights: map[string]int{"mode": 30, "altscreen": 15, "text": 15, "textwide": 4, "goto": 8, "kbd": 8, "margins": 5, "wrap": 6, "sgr": 4, "erase": 4, "scroll": 3, "lf": 4},
 		minLen: 5, maxLen: 40, grid: 20, chunks: []int{0, 1}},
-	"C18": {name: "C18", gmode: 10, macros: 10, macroSet: []string{"save-resize-restore", "wide-edges"}, weights: withWeights(map[string]int{"resize": 20, "textwide": 15, "textlong": 12, "margins": 8, "cursor": 12, "altscreen": 3}),
+	"C18": {name: "C18", gmode: 10, macros: 12, macroSet: []string{"save-resize-restore", "wide-edges", "resize-wide-rows"}, weights: withWeights(map[string]int{"resize": 20, "textwide": 15, "textlong": 12, "margins": 8, "cursor": 12, "altscreen": 3}),
 		minLen: 5, maxLen: 40, grid: 30, chunks: []int{0, 1}, sizes: func(g *genCtx) (int, int) { return g.sizePick() }},
 	"C19": {name: "C19", macros: 10, macroSet: []string{"alt-roundtrip"}, weights: map[string]int{"kbd": 70, "altscreen": 10, "text": 5, "mode": 5, "query": 5},
 		minLen: 5, maxLen: 80, grid: 5, chunks: []int{0, 1}},
@@ -578,6 +696,13 @@ func genCase(p *profile, r *prng) Case {
 				c.Items = append(c.Items, g.item(k))
 				break
 			}
+		}
+	}
+	if r.chance(1, 8) {
+		// the stream ends in the middle of a sequence or character (EOF inside a handler)
+		full := g.item(pick(r, []string{"esc", "osc", "dcs", "oddcsi", "sgr", "cursor", "query", "kbd", "textwide", "goto", "mode"})).bytes()
+		if len(full) > 1 {
+			c.Items = append(c.Items, in("truncated", full[:1+r.intn(len(full)-1)]))
 		}
 	}
 	return c
